@@ -481,7 +481,14 @@ func (g *caseGen) ctor() string { return []string{"c", "p", "f"}[g.r.Intn(3)] }
 func (g *caseGen) callLine(svc *svcInfo, calls []*callSpec) *opCase {
 	oc := &opCase{unit: g.u, svc: svc, kind: "CALL", calls: calls, seq0: g.seq0()}
 	var sb strings.Builder
-	fmt.Fprintf(&sb, "CALL %s:%d %s %d %d", g.u.Key, svc.Idx, g.ctor(), oc.seq0, len(calls))
+	ctor := g.ctor()
+	if g.r.Bool() {
+		ctor += "b" // the server answers through a buffered transport: what it does not flush does not arrive
+		g.out.Count("case.server_output.buffered")
+	} else {
+		g.out.Count("case.server_output.unbuffered")
+	}
+	fmt.Fprintf(&sb, "CALL %s:%d %s %d %d", g.u.Key, svc.Idx, ctor, oc.seq0, len(calls))
 	for _, c := range calls {
 		sb.WriteString(" " + c.text())
 		g.out.Count("case.answer." + c.kind)
@@ -857,6 +864,9 @@ func verdict(oc *opCase, ans string) string {
 			m := c.m
 			seq := oc.seq0 + int32(i+1)
 			at := fmt.Sprintf("call %d (%s): ", i+1, m.Name)
+			if k := strings.Index(ca.reply, "+unflushed"); k >= 0 {
+				return at + "the processor returned with " + ca.reply[k+10:] + " written reply bytes not flushed (they would leave with the NEXT reply)"
+			}
 			if ca.outcome == "nomethod" {
 				return at + "the generated client of service " + oc.svc.Name + " has no method for the (inherited) function " + m.Name
 			}
@@ -1035,7 +1045,7 @@ func shrink(b *batch.Built, r *vl.Rng, oc *opCase, ans, msg string) (*opCase, st
 	try := func(calls []*callSpec, seq0 int32) (*opCase, string, string) {
 		c := &opCase{unit: oc.unit, svc: oc.svc, kind: "CALL", calls: calls, seq0: seq0}
 		var sb strings.Builder
-		fmt.Fprintf(&sb, "CALL %s:%d c %d %d", oc.unit.Key, oc.svc.Idx, seq0, len(calls))
+		fmt.Fprintf(&sb, "CALL %s:%d cb %d %d", oc.unit.Key, oc.svc.Idx, seq0, len(calls))
 		for _, x := range calls {
 			sb.WriteString(" " + x.text())
 		}
@@ -1170,7 +1180,7 @@ func reportUnits(b *batch.Built, tables map[int][]*svcInfo) int {
 	bad := 0
 	for i := range b.Units {
 		u := &b.Units[i]
-		if unitUsable(u, tables[i]) {
+		if unitUsable(u, tables[i]) || (strings.HasPrefix(u.Tag, "must-reject:") && u.Exit != 0) {
 			continue
 		}
 		bad++
@@ -1272,8 +1282,19 @@ func run(repo, dir string, seed uint64, nprog int, tier string, keep bool, only 
 		p, streaming = keywordProgram()
 		streams = append(streams, streaming)
 		units = append(units, batch.Unit{Prog: p, Recurse: true, Tag: "aimed:keyword-names"})
+		p, streaming = requirednessProgram()
+		streams = append(streams, streaming)
+		units = append(units, batch.Unit{Prog: p, Recurse: true, Tag: "aimed:requiredness-keywords"})
 		out.Count("unit.aimed")
 		out.Count("unit.aimed")
+		out.Count("unit.aimed")
+		// programs the checker must REJECT (fix ef66a8a): a throws member named `success` / with id 0 next to a return value
+		for _, k := range []string{"success-name", "id-0"} {
+			p, streaming = mustRejectProgram(k)
+			streams = append(streams, streaming)
+			units = append(units, batch.Unit{Prog: p, Recurse: true, Tag: "must-reject:throws-" + k})
+			out.Count("unit.must_reject")
+		}
 	}
 	for i := 0; i < nprog; i++ {
 		stress := i%4 == 3
@@ -1308,6 +1329,16 @@ func run(repo, dir string, seed uint64, nprog int, tier string, keep bool, only 
 	badUnits := reportUnits(b, tables)
 	for i := range b.Units {
 		u := &b.Units[i]
+		if strings.HasPrefix(u.Tag, "must-reject:") {
+			if u.Exit == 0 {
+				out.Fail(vl.OracleFail{Key: "accepted:" + u.Tag, What: "thriftgo accepted a program it must reject: the throws member collides with the synthesized `success` field (name or id 0) of <fn>_result",
+					Input:    map[string]interface{}{"unit": u.Key, "tag": u.Tag, "idl": units[i].Prog.Render(), "cmd": strings.Join(u.Cmd, " "), "seed": seed},
+					Expected: "non-zero exit with a diagnostic", Observed: "exit 0"})
+			} else {
+				out.Count("unit.must_reject.rejected")
+			}
+			continue
+		}
 		if !unitUsable(u, tables[i]) {
 			// the property quantifies over ACCEPTED programs with services: output that does not compile (or an accepted-looking
 			// program that is rejected) is a failing input of this check, with the compiler's message
@@ -1405,7 +1436,7 @@ func run(repo, dir string, seed uint64, nprog int, tier string, keep bool, only 
 			Input:    map[string]interface{}{"unit": u.Key, "tag": u.Tag, "options": u.Options, "idl": units[k].Prog.Render(), "cmd": strings.Join(u.Cmd, " "), "seed": seed},
 			Expected: "interface + client + processor of every service are consistent", Observed: why})
 	}
-	if len(usable)*2 < len(b.Units) {
+	if (len(usable)+2)*2 < len(b.Units) {
 		out.Fail(vl.OracleFail{Key: "units-unusable", What: fmt.Sprintf("only %d of %d units could be driven", len(usable), len(b.Units)), Observed: b.Summary()})
 	}
 
@@ -1610,6 +1641,25 @@ func extract(repo string) error {
 	list("messageBegins", "String × String", mb)
 	list("clientCalls", "String × String × String", calls)
 	list("synthesized", "String × String", syn)
+	// every message the processor writes is flushed before Process returns: for each WriteMessageEnd in the processor
+	// template, the next statement that touches oprot or returns
+	var fl [][]string
+	plines := strings.Split(proc, "\n")
+	for i, ln := range plines {
+		if !strings.Contains(ln, "oprot.WriteMessageEnd()") {
+			continue
+		}
+		next := "(end of template)"
+		for j := i + 1; j < len(plines); j++ {
+			t := strings.TrimSpace(plines[j])
+			if strings.Contains(t, "oprot.") || strings.HasPrefix(t, "return") {
+				next = t
+				break
+			}
+		}
+		fl = append(fl, []string{strings.TrimSpace(ln), next})
+	}
+	list("flushAfterEnd", "String × String", fl)
 	// streaming: the guard at the call site and the filter inside removeStreamingFunctions
 	backend, err := read("generator/golang/backend.go")
 	if err != nil {
